@@ -165,11 +165,12 @@ FORMS = {
 class Build:
     """One scratch build of the library's C units for (variant, form)."""
 
-    def __init__(self, repo=None):
+    def __init__(self, repo=None, extra_n0=()):
         self.repo = repo or REPO
         self.cfg = configure(self.repo)
         self.dir = scratch("tjv-bld-")
         self._facts = {}
+        self.extra_n0 = list(extra_n0)      # extra preprocessor flags for the source-shaped form (the optimised build's predefined macros)
 
     def c_units(self):
         return [u for u in self.cfg["units"] if u["file"].endswith(".c")]
@@ -192,6 +193,8 @@ class Build:
         if form == "N0":
             flags = [a for a in flags if not a.startswith("-O")]
         flags = ["-I" + os.path.join(self.repo, "src"), "-I" + vdir] + flags + FORMS[form] + VARIANTS[variant][1]
+        if form == "N0":
+            flags = flags + self.extra_n0
         return flags
 
     def bitcode(self, variant="H", form="N0"):
@@ -277,3 +280,26 @@ class Build:
         d["_variant"] = "fixture"
         d["_form"] = form
         return d
+
+
+OPTLEVEL_MACROS = ("__OPTIMIZE__", "__OPTIMIZE_SIZE__", "__NO_INLINE__", "__FAST_MATH__")
+
+
+def optlevel_conditionals(repo=None):
+    """preprocessor conditionals of the library sources that test a macro the compiler predefines from the optimisation level: the
+    source-shaped form is compiled without optimisation, the shipped objects with -O3, so such a conditional selects different code"""
+    import re
+    repo = repo or REPO
+    rx = re.compile(r"^\s*#\s*(if|ifdef|ifndef|elif)\b.*\b(%s)\b" % "|".join(OPTLEVEL_MACROS))
+    hits = []
+    for root, _d, files in os.walk(os.path.join(repo, "src")):
+        for fn in sorted(files):
+            if fn.endswith((".c", ".h")):
+                p = os.path.join(root, fn)
+                try:
+                    for i, line in enumerate(open(p, errors="replace"), 1):
+                        if rx.search(line):
+                            hits.append("%s:%d" % (os.path.relpath(p, repo), i))
+                except OSError:
+                    pass
+    return hits
